@@ -7,12 +7,12 @@ log = open(sys.argv[1]).read()
 blocks = re.split(r"^=== ", log, flags=re.M)[1:]
 for b in blocks:
     head = b.splitlines()[0].strip()
-    m = re.match(r"(C\d\d)/(?:(out[23]?)/)?(m\d)", head)
+    m = re.match(r"(C\d\d)/(?:(out[234]?)/)?(m\d)", head)
     if not m: continue
     prop, rnd, mi = m.groups()
     rnd = rnd or "out"
     src = f"/tmp/mut/{prop}/{rnd}/{mi}"
-    sid = f"{prop}-{ {'out':'r1','out2':'r2','out3':'r3'}[rnd] }{mi}"
+    sid = f"{prop}-{ {'out':'r1','out2':'r2','out3':'r3','out4':'r4'}[rnd] }{mi}"
     fired = re.search(r"^FIRED: (.*)$", b, flags=re.M); silent = re.search(r"^SILENT: (.*)$", b, flags=re.M); mach = re.search(r"^MACHINERY: (.*)$", b, flags=re.M)
     if not fired: continue
     f = "" if fired.group(1).strip()=="none" else ",".join(fired.group(1).split())
